@@ -1,6 +1,7 @@
 """C13 - poller: bounded staleness, no starvation, survives failing reads"""
 from sa.core import rule, prop_info
 from sa.lib import *  # noqa: F401,F403
+from sa.lib import local_assigns  # noqa
 from sa.lib import (attr_stores, func_calls, enclosing_tries, handler_catches_all, handler_reraises,
                     handler_type_names, contained_by_catch_all, origins)
 from sa.model import AnchorMissing, kwarg, names_in, UNKNOWN
@@ -272,3 +273,25 @@ def division_guards(ctx):
                       'ZeroDivisionError handler: a poll interval of 0 ends the poll thread', pt)
     if not n:
         raise AnchorMissing('no division in the poll thread (due-time computation changed)')
+
+
+@rule('C13.R5', min_instances=1)
+def slow_poll_round_is_consumed_progressively(ctx):
+    """one slow poll per turn: the loop that takes ONE due parameter and breaks must run over an iterator, so that the next
+    turn continues behind the parameter polled last (a list would restart at its first entry every turn: one parameter whose
+    read keeps failing - its timestamp is never refreshed - would starve all parameters behind it)"""
+    m = ctx.m
+    pt = roles.poll_thread(m)
+    ctx.analysed(pt)
+    loops = [n for n in body_walk(pt.node) if isinstance(n, ast.For) and isinstance(n.iter, ast.Name) and
+             any(call_attr(c) == 'callPollFunc' for c in calls_in(n)) and any(isinstance(x, ast.Break) for st in n.body for x in walk_local(st))]
+    if not loops:
+        ctx.undecided(f'{pt.qualname}:slow poll round', pt.node, 'no one-poll-per-turn loop recognised', pt)
+        return
+    for l in loops:
+        name = l.iter.id
+        vals = [v for v, st, how in local_assigns(pt.node, name) if how == 'assign' and v is not None]
+        has_iter = any(isinstance(v, ast.Call) and dotted(v.func) == 'iter' for v in vals)
+        ctx.check(has_iter, f'{pt.qualname}:slow poll round is an iterator', l, f'`{name} = iter(...)`: successive turns continue in the round',
+                  f'`{name}` is never turned into an iterator: every turn scans the round from its first entry again - a parameter whose read fails '
+                  'repeatedly (timestamp not refreshed) is picked every time and the parameters behind it are never polled again', pt)
